@@ -24,10 +24,32 @@ EPS32 = 2.0 ** -23
 EPS64 = 2.0 ** -52
 
 
+class Z(np.ndarray):
+    """float64 array of float32-rounded elevations that remembers how far each cell was moved by that rounding (`dz`).  The statement does
+    not say in which precision the formulas are evaluated: an implementation working on the float32-rounded elevations (today's) and one
+    working on the elevations as given (float64 / int64) are both right, and they differ by at most what `dz` propagates to."""
+    dz = None
+
+    def __array_finalize__(self, obj):
+        self.dz = None   # derived arrays (slices, sums) carry no rounding record; _nbdz reads it from the array cast32 returned
+
+
 def cast32(a):
     """The elevations as the library sees them: cast to float32 (documented single precision), held in float64."""
     with np.errstate(all="ignore"):
-        return np.asarray(a).astype(np.float32).astype(np.float64)
+        raw = np.asarray(a)
+        z = raw.astype(np.float32).astype(np.float64).view(Z)
+        d = np.abs(raw.astype(np.float64) - np.asarray(z))
+        z.dz = np.where(np.isfinite(d), d, 0.0)
+        return z
+
+
+def _nbdz(z):
+    """Neighbour dictionary of the input-rounding record (zeros when there is none)."""
+    dz = getattr(z, "dz", None)
+    if dz is None:
+        dz = np.zeros(np.shape(z))
+    return _nb(dz)
 
 
 def _nb(z):
@@ -66,6 +88,9 @@ def horn(z):
             a = {k: np.abs(v) for k, v in n.items()}
             dew = 16 * EPS64 * (a["NE"] + 2 * a["E"] + a["SE"] + a["NW"] + 2 * a["W"] + a["SW"])
             dsn = 16 * EPS64 * (a["SW"] + 2 * a["S"] + a["SE"] + a["NW"] + 2 * a["N"] + a["NE"])
+        d = _nbdz(z)   # elevations as given vs rounded to float32 (zero for float32-exact rasters)
+        dew = dew + (d["NE"] + 2 * d["E"] + d["SE"] + d["NW"] + 2 * d["W"] + d["SW"])
+        dsn = dsn + (d["SW"] + 2 * d["S"] + d["SE"] + d["NW"] + 2 * d["N"] + d["NE"])
     return ew, sn, dew, dsn
 
 
@@ -111,6 +136,10 @@ def curvature(z, cx, cy):
         ref = -100.0 * ((n["N"] + n["S"] - 2 * n["C"]) + (n["E"] + n["W"] - 2 * n["C"])) / (L * L)
         # single precision: each opposite-neighbour sum may be rounded to float32 once (x2 margin), result stored as float32
         fwd = 2 * 100.0 / (L * L) * (_pair_round(n["N"], n["S"]) + _pair_round(n["E"], n["W"]))
+        d = _nbdz(z)   # evaluation on the elevations as given instead of their float32 roundings
+        fwd = fwd + 100.0 / (L * L) * (d["N"] + d["S"] + d["E"] + d["W"] + 4 * d["C"]) * (1 + 1e-6) \
+            + np.where((d["N"] + d["S"] + d["E"] + d["W"] + d["C"]) > 0, 64 * EPS64 * 100.0 / (L * L) * (
+                np.abs(n["N"]) + np.abs(n["S"]) + np.abs(n["E"]) + np.abs(n["W"]) + 4 * np.abs(n["C"])), 0.0)
         tol = 4 * EPS32 * np.abs(ref) + fwd
     return _full(z.shape, ref), _full(z.shape, tol)
 
@@ -128,7 +157,8 @@ def hillshade(z, azimuth, altitude):
         ge = (n["E"] - n["W"]) / 2.0
         shaded = (np.sin(alt) + np.cos(alt) * (np.cos(az) * gs - np.sin(az) * ge)) / np.sqrt(1.0 + gs * gs + ge * ge)
         ref = (shaded + 1.0) / 2.0
-    return _full(z.shape, ref), _full(z.shape, np.full(ref.shape, HILLSHADE_ATOL))
+        d = _nbdz(z)   # |d ref / d gradient| <= 1 per unit of gs, ge
+    return _full(z.shape, ref), _full(z.shape, np.full(ref.shape, HILLSHADE_ATOL) + (d["S"] + d["N"]) / 2.0 + (d["E"] + d["W"]) / 2.0)
 
 
 def flat_windows(z):
